@@ -13,7 +13,8 @@ from ..cli import digest
 PROP = 'C16'
 LEVEL = 'exploration'
 RULE = ('strictly monotonic 1-D coordinates (ascending/descending, exactly '
-        'uniform / non-uniform, length 2-12) x bounds representation {none, '
+        'uniform / non-uniform, length 2-12, stored as float64, float32 or '
+        'int32) x bounds representation {none, '
         '1-D edges, n x 2, via the bounds attribute, <dim>_bnds} x method '
         '{nearest, bounds, exact} x clean {none, mask} x bounds option '
         '{ignore, warn, error} x left/right {None, nan}; query batch = all '
